@@ -22,6 +22,8 @@ def run(tier):
     jobs = []
     diffs = []
     for g in sugar.cfg_grammars():
+        if getattr(g, "thorough_only", False) and tier == "quick":
+            continue
         for r in range(len(g.features) + 1):
             for fs in itertools.combinations(g.features, r):
                 feats = frozenset(fs)
